@@ -51,40 +51,9 @@ Definition quote_key (k : bstr) : bstr := [39] ++ escape_key k ++ [39].
 (* ---- floats ---- *)
 Definition has_dot_or_e (s : bstr) : bool := mem 46 s || mem 101 s.
 
-Fixpoint strip_trailing_zeros_rev (r : bstr) : bstr :=
-  match r with 48 :: r' => strip_trailing_zeros_rev r' | _ => r end.
-Definition strip_trailing_zeros (s : bstr) : bstr := rev (strip_trailing_zeros_rev (rev s)).
-
-(* %e form of FormatFloat(x,'g',-1,64) for |x| >= 10^6 whose exact expansion has <= 15 digits *)
-Definition fl_exp_form (x : fl) : option bstr :=
-  match x with
-  | FFin m e =>
-      let a := Z.abs m in
-      let sign : bstr := if (m <? 0)%Z then [45] else [] in
-      let '(ip, frac) :=
-        if (0 <=? e)%Z then (a * 2 ^ e, [])%Z
-        else if (e <? -40)%Z then (0%Z, [])
-        else (a / 2 ^ (- e), frac_digits 45 (a mod 2 ^ (- e)) (2 ^ (- e)))%Z in
-      if (ip <? 1000000)%Z then None
-      else
-        let ipd := dec_of_Z ip in
-        let digits := strip_trailing_zeros (ipd ++ frac) in
-        if (15 <? length digits)%nat then None
-        else
-          let ex := dec_of_N (N.of_nat (length ipd) - 1) in
-          let ex2 := if (length ex <? 2)%nat then 48 :: ex else ex in
-          match digits with
-          | [] => None
-          | d :: rest =>
-              Some (sign ++ [d] ++ (match rest with [] => [] | _ => 46 :: rest end) ++ [101; 43] ++ ex2)
-          end
-  | _ => None
-  end.
-
 (* func (n *FloatNode) String() string *)
 Definition fl_print (x : fl) : option bstr :=
-  let g := match fl_to_string x with Some s => Some s | None => fl_exp_form x end in
-  match g with
+  match fl_to_string x with
   | Some s => Some (if has_dot_or_e s then s else s ++ [46; 48])
   | None => None
   end.
